@@ -243,14 +243,18 @@ func genC17(g *Gen, tier string) *Program {
 				var spec *BucketSpec
 				if kind == "hist" {
 					if g.Bool(50) {
-						vs := [][]float64{{0, 1, 2.5, 10}, {0, 1, 2.5, 10}, {1, 2, 3, 4}, {-5, 0.5, 7, 100}, {0.125, 0.25, 0.5, 1}}[g.Intn(5)]
+						// (the last pairs have equal sums of bit patterns: sets that an
+						// identity built on such sums cannot tell apart)
+						vs := [][]float64{{0, 1, 2.5, 10}, {0, 1, 2.5, 10}, {1, 2, 3, 4}, {-5, 0.5, 7, 100}, {0.125, 0.25, 0.5, 1}, {1, 8}, {2, 4}, {1, 8}, {2, 4}}[g.Intn(9)]
 						spec = &BucketSpec{}
 						for _, v := range vs {
 							spec.Bits = append(spec.Bits, f64bits(v))
 						}
 					} else {
 						spec = &BucketSpec{Dur: true, Durs: []int64{1e6, 5e8, 1e9, 2e9}}
-						if g.Bool(60) {
+						if g.Bool(25) {
+							spec = &BucketSpec{Dur: true, Durs: pick(g, []int64{10e6, 20e6, 30e6}, []int64{15e6, 20e6, 25e6})} // equal sums
+						} else if g.Bool(60) {
 							// strictly increasing bounds at ms or ns granularity, mostly above one
 							// second (where seconds-as-float64 conversions start to round)
 							spec = &BucketSpec{Dur: true}
@@ -273,7 +277,11 @@ func genC17(g *Gen, tier string) *Program {
 						if spec.Dur {
 							op.Name += fmt.Sprintf("_d%d", specHash(spec))
 						} else {
-							op.Name += fmt.Sprintf("_v%d", int(f64from(spec.Bits[3])*8))
+							h := uint64(0)
+							for _, b := range spec.Bits {
+								h = h*1099511628211 + b
+							}
+							op.Name += fmt.Sprintf("_v%d", h%99991)
 						}
 					}
 					op.B = spec
